@@ -59,8 +59,9 @@ func (o *tcpSYNCmdOpts) startScan(ctx context.Context, args []string) (err error
 		withTCPScanName(scanName),
 		withTCPPacketFillerOptions(tcp.WithSYN()),
 		withTCPPacketFilterFunc(func(pkt *layers.TCP) bool {
-			// port is open
-			return pkt.SYN && pkt.ACK
+			// port is open: exactly SYN+ACK, BPF filter checks only tcp[13]
+			// so NS flag (tcp[12]) must be checked here
+			return pkt.SYN && pkt.ACK && !pkt.NS
 		}),
 		withTCPPacketFlags(tcp.EmptyFlags),
 	)
